@@ -23,6 +23,7 @@ type genCfg struct {
 	invalidU8  bool // ill-formed UTF-8 inside strings
 	dupNames   bool // occasionally duplicate a member name
 	simpleNums bool // only integers that survive float64 exactly
+	plainKeys  bool // member names k0, k1, ...
 }
 
 func newRng(seed uint64, stream uint64) *rand.Rand {
@@ -229,6 +230,9 @@ func genValue(r *rand.Rand, c *genCfg, depth int, sb *strings.Builder) {
 			} else {
 				for try := 0; ; try++ {
 					name = genRunes(r, c)
+					if c.plainKeys {
+						name = []rune("k" + strconv.Itoa(i))
+					}
 					if try > 3 {
 						name = append(name, []rune(strconv.Itoa(i))...)
 					}
